@@ -20,6 +20,7 @@ import (
 	"syscall"
 	"time"
 
+	"github.com/fsnotify/fsnotify"
 	"tags.cncf.io/container-device-interface/pkg/cdi"
 	"verif/harness/hx"
 )
@@ -226,33 +227,44 @@ func c20Child(args []string) int {
 		pr.Close()
 		pw.Close()
 	}
-	// calibration: what one auto-refresh cache costs in this process
-	cc, _ := cdi.NewCache(cdi.WithSpecDirs(in.CalibDir))
-	var during c20Res
-	if !c20Until(3*time.Second, func() bool { during, _ = c20Measure(); return during.ino == 1 && during.watches == 1 }) {
+	// calibration, independent of the code under test: what one fsnotify watcher costs in this process. An auto-refresh
+	// cache holds one watcher plus its own watch goroutine (the goroutine the configure machine counts).
+	var base, during c20Res
+	var limit int
+	settle := func(r *c20Res, want func(c20Res) bool) bool {
+		prev := c20Res{fd: -2}
+		stable := 0
+		return c20Until(3*time.Second, func() bool {
+			*r, limit = c20Measure()
+			if *r == prev {
+				stable++
+			} else {
+				stable = 0
+			}
+			prev = *r
+			return want(*r) && stable >= 5
+		})
+	}
+	if !settle(&base, func(r c20Res) bool { return r.ino == 0 }) {
+		return fail("calibration: baseline does not settle")
+	}
+	fw, err := fsnotify.NewWatcher()
+	if err != nil {
+		return fail("calibration: " + err.Error())
+	}
+	if err := fw.Add(in.CalibDir); err != nil {
+		return fail("calibration: " + err.Error())
+	}
+	if !settle(&during, func(r c20Res) bool { return r.ino == 1 && r.watches == 1 }) {
 		return fail("calibration: no inotify instance with one watch")
 	}
-	time.Sleep(20 * time.Millisecond)
-	during, _ = c20Measure()
-	_ = cc.Configure(cdi.WithAutoRefresh(false))
-	var base c20Res
-	var limit int
-	prev := c20Res{fd: -2}
-	stable := 0
-	if !c20Until(3*time.Second, func() bool {
-		base, limit = c20Measure()
-		if base == prev {
-			stable++
-		} else {
-			stable = 0
-		}
-		prev = base
-		return base.ino == 0 && stable >= 5
-	}) {
-		return fail("calibration: resources of a released cache do not go away")
+	_ = fw.Close()
+	var after c20Res
+	if !settle(&after, func(r c20Res) bool { return r == base }) {
+		return fail("calibration: a closed fsnotify watcher does not release its resources")
 	}
-	out.UnitFd, out.UnitGor = during.fd-base.fd, during.gor-base.gor
-	if out.UnitFd <= 0 || out.UnitGor <= 0 {
+	out.UnitFd, out.UnitGor = during.fd-base.fd, during.gor-base.gor+1
+	if out.UnitFd <= 0 || out.UnitGor <= 1 {
 		return fail(fmt.Sprintf("calibration: implausible units fd=%d goroutines=%d", out.UnitFd, out.UnitGor))
 	}
 
@@ -285,14 +297,41 @@ func c20Child(args []string) int {
 	}
 	exists := func(d string) bool { st, err := os.Stat(d); return err == nil && st.IsDir() }
 
+	// once something has failed to settle within its deadline (which is reported), later waits are cut short: a leaking or
+	// stuck implementation must not turn one finding into minutes of polling
+	impatient := false
+	patience := func(d time.Duration) time.Duration {
+		if impatient {
+			return 200 * time.Millisecond
+		}
+		return d
+	}
 	observe := func(i int, st c20Step) c20Obs {
 		ob := c20Obs{Step: i}
 		// what a manual-mode fresh cache answers right now: the target the cache under test has to reach by itself
 		tc, _ := cdi.NewCache(append(append([]cdi.Option{}, allOpts...), cdi.WithAutoRefresh(false))...)
 		tdevs, terrs, _ := c20Answers(tc)
+		// The answers come from separate calls (each takes the cache's lock once), so the watch goroutine may slip in
+		// between them: a reading counts only if the same values are read twice in a row, in the order A B C D / D C B A.
+		snap := func(reverse bool) string {
+			var devs, errs, derrs []string
+			var tr map[string]bool
+			var has bool
+			if reverse {
+				tr, has = cdi.VerifTracked(cache)
+				devs, errs, derrs = c20Answers(cache)
+			} else {
+				devs, errs, derrs = c20Answers(cache)
+				tr, has = cdi.VerifTracked(cache)
+			}
+			ob.Devs, ob.Errs, ob.DirErrs, ob.Tracked, ob.Has = devs, errs, derrs, tr, has
+			d, _ := json.Marshal([]interface{}{devs, errs, derrs, tr, has})
+			return string(d)
+		}
 		read := func() bool {
-			ob.Devs, ob.Errs, ob.DirErrs = c20Answers(cache)
-			ob.Tracked, ob.Has = cdi.VerifTracked(cache)
+			if a, b := snap(false), snap(true); a != b {
+				return false
+			}
 			if !auto {
 				return true
 			}
@@ -311,7 +350,10 @@ func c20Child(args []string) int {
 		if st.Probe != "" && (!auto || st.Probe == "former") {
 			time.Sleep(150 * time.Millisecond) // room for a watcher that should not be there to react
 		}
-		ob.Settled = c20Until(4*time.Second, read)
+		ob.Settled = c20Until(patience(5*time.Second), read)
+		if !ob.Settled {
+			impatient = true
+		}
 		ob.Dirs = cache.GetSpecDirectories()
 		// resources, after the asynchronous teardown of closed watchers
 		units := 0
@@ -319,10 +361,12 @@ func c20Child(args []string) int {
 			units = 1
 		}
 		var m c20Res
-		c20Until(2*time.Second, func() bool {
+		if !c20Until(patience(5*time.Second), func() bool {
 			m, _ = c20Measure()
 			return m.ino == units && m.fd-base.fd == units*out.UnitFd && m.gor-base.gor == units*out.UnitGor
-		})
+		}) {
+			impatient = true
+		}
 		ob.Ino, ob.Watches, ob.Fd, ob.Gor = m.ino, m.watches, m.fd-base.fd, m.gor-base.gor
 		if st.Probe == "former" {
 			if log, err := os.ReadFile(in.EventLog); err == nil {
@@ -334,7 +378,9 @@ func c20Child(args []string) int {
 		ob.FDirs = fc.GetSpecDirectories()
 		ob.FDevs, ob.FErrs, ob.FDirErrs = c20Answers(fc)
 		_ = fc.Configure(cdi.WithAutoRefresh(false))
-		c20Until(2*time.Second, func() bool { m2, _ := c20Measure(); return m2 == m })
+		if !c20Until(patience(5*time.Second), func() bool { m2, _ := c20Measure(); return m2 == m }) {
+			impatient = true
+		}
 		return ob
 	}
 
@@ -383,6 +429,12 @@ func c20Child(args []string) int {
 			_ = os.RemoveAll(st.Dir)
 		}
 		if st.Shortage {
+			// A watch goroutine of the replaced watcher may still hold an event; it finishes it (update + rescan) before it
+			// sees its channel closed. Let that happen inside the shortage, as the configure machine has it (the rescan finds
+			// nothing), not after descriptors are back: no watcher can exist now, so wait for the goroutines to be gone.
+			if !c20Until(patience(5*time.Second), func() bool { return runtime.NumGoroutine() <= base.gor }) {
+				impatient = true
+			}
 			shortage(false)
 		}
 		if panicked {
@@ -626,16 +678,22 @@ func c20Gen(r *hx.R, kind, root string, maxConf int) *c20Hist {
 	if r.Chance(0.6) {
 		shortP = 0.1 + 0.3*r.Float64()
 	}
+	created := false
 	addConf := func(st c20Step) {
 		st.Observe = true
-		if r.Chance(shortP) {
+		// descriptors are short only while a cache is really created or reconfigured (the shortage discipline): an operation
+		// that leaves the cache alone (GetDefaultCache on an existing cache, empty option lists) would just keep the window open
+		reconfigures := !created || (st.Op != "dget" && st.Op != "new" && len(st.Opts) > 0)
+		if os.Getenv("VERIF_C20_OLDGEN") != "" {
+			reconfigures = true
+		}
+		if reconfigures && r.Chance(shortP) {
 			st.Shortage = true
 			h.short++
 		}
 		h.in.Steps = append(h.in.Steps, st)
 		h.nconf++
 	}
-	created := false
 	genFs := func() {
 		// a change in a current or a former directory
 		var d string
@@ -823,7 +881,12 @@ func (h *c20Hist) toCase() hx.Case {
 				}
 				return o
 			}
-			d += fmt.Sprintf(" => devs=%v errs=%v fresh_devs=%v fresh_errs=%v inotify=%d watches=%d fd+%d goroutines+%d", rel(o.Devs), rel(o.Errs), rel(o.FDevs), rel(o.FErrs), o.Ino, o.Watches, o.Fd, o.Gor)
+			var tr []string
+			for _, k := range c20Keys(o.Tracked) {
+				tr = append(tr, fmt.Sprintf("%s:%v", strings.TrimPrefix(k, h.root+"/"), o.Tracked[k]))
+			}
+			d += fmt.Sprintf(" => devs=%v errs=%v dir_errs=%v tracked=%v watcher=%v | fresh: devs=%v errs=%v dir_errs=%v | inotify=%d watches=%d fd+%d goroutines+%d",
+				rel(o.Devs), rel(o.Errs), rel(o.DirErrs), tr, o.Has, rel(o.FDevs), rel(o.FErrs), rel(o.FDirErrs), o.Ino, o.Watches, o.Fd, o.Gor)
 			if o.Stale {
 				d += " STALE-EVENT"
 			}
@@ -869,9 +932,9 @@ func genC20(r *hx.R, tier string, scratch string) (*hx.Suite, error) {
 			"from a fresh cache created with every option given so far. At the end a probe Spec is dropped into every final and every former directory without " +
 			"any explicit refresh. Non-trivial: at least two (re)configurations.",
 	}
-	nSingle, nDefault, maxConf := 30, 18, 40
+	nSingle, nDefault, maxConf := 80, 48, 40
 	if tier == "thorough" {
-		nSingle, nDefault = 220, 140
+		nSingle, nDefault = 400, 240
 	}
 	if v := os.Getenv("VERIF_C20_N"); v != "" {
 		if n, err := strconv.Atoi(v); err == nil {
@@ -903,6 +966,27 @@ func genC20(r *hx.R, tier string, scratch string) (*hx.Suite, error) {
 			return nil, err
 		}
 		hists = append(hists, h)
+	}
+	// debugging aid: VERIF_C20_REPEAT=i:n runs history i n times (fresh directories each time) instead of the whole suite
+	if v := os.Getenv("VERIF_C20_REPEAT"); v != "" {
+		var idx, n int
+		if _, err := fmt.Sscanf(v, "%d:%d", &idx, &n); err == nil && idx < len(hists) {
+			src := hists[idx]
+			hists = nil
+			for k := 0; k < n; k++ {
+				root := filepath.Join(scratch, fmt.Sprintf("r%d", k))
+				data, _ := json.Marshal(src.in)
+				h := &c20Hist{kind: src.kind, root: root, nconf: src.nconf, short: src.short, fs0: map[string]map[string]c20File{}}
+				_ = json.Unmarshal([]byte(strings.ReplaceAll(string(data), src.root, root)), &h.in)
+				for d, files := range src.fs0 {
+					h.fs0[strings.Replace(d, src.root, root, 1)] = files
+				}
+				if err := h.materialise(); err != nil {
+					return nil, err
+				}
+				hists = append(hists, h)
+			}
+		}
 	}
 	sem := make(chan struct{}, 4)
 	var wg sync.WaitGroup
